@@ -71,6 +71,25 @@ CHECKS.update({
                 note='Trusted: virtual loop and link fault model (EOF vs ConnectionResetError on read, writes fail after the cut). Message-mode close() does not notify the peer (websocket glue out of scope).'),
 })
 
+CHECKS.update({
+    'C12': dict(engine='rawpeer', level='fault_enumeration', design='3/C12',
+                technique='fault enumeration + property-based testing: generated hostile byte strings / protocol-violating frame sequences from a raw peer with probe requests, complete application-fault matrix, coverage-guided fuzzing (atheris) in the thorough tier',
+                text='Arbitrary bytes and messages, a catalogue of decodable protocol-violating frames interleaved with healthy interactions and followed by probes, and every application entry point failing (complete matrix x side x framing x fragmentation); liveness, no unhandled exception, only ERROR frames on offending streams, bystanders and probes served.',
+                note='Trusted: raw peer/reference codec; 60 s watchdog (>= 10^4 x a normal case) is the only wall-clock element and only turns a synchronous endless loop into a reported violation.'),
+    'C14': dict(engine='rawpeer', level='exploration', design='3/C14',
+                technique='model-based property testing: generated lease/request/time timelines under a virtual clock replayed against a reference lease model; granter side compared with the published leases',
+                text='Real lease-honouring client against a raw granter (all four request types, fragmentation, bounded and unbounded queue) and a real granting server against a raw client; wire order of request frames equals the reference model\'s release order, per-lease count and expiry respected.',
+                note='Trusted: reference lease model; virtual datetime in rsocket.lease; events are separated by runs to quiescence.'),
+    'C15': dict(engine='rawpeer', level='exploration', design='3/C15',
+                technique='property-based testing under a virtual clock: generated keepalive periods/lifetimes and acknowledgement gap patterns; echo relation for KEEPALIVE frames',
+                text='Echo of respond-flagged KEEPALIVEs with data on client and server; exact period of the client\'s keepalives in virtual time; no timeout while gaps <= 0.9 L, timeout reported within 2.2 L of silence.',
+                note='Trusted: virtual loop time and virtual datetime in rsocket.rsocket_client; boundaries L and 2L themselves are never generated.'),
+    'C16': dict(engine='rawpeer', level='exploration', design='3/C16',
+                technique='property-based testing: generated client configurations, suspending transports/providers and concurrent requests with SETUP decoded from the written bytes by a reference codec; generated SETUP/RESUME frames against a real server',
+                text='SETUP first and once on every (re)connection with exactly the configured fields; server accept/reject matrix with the right error codes on stream 0. Open known finding D13 (frames precede SETUP while transport.connect() is suspended).',
+                note='Trusted: reference codec for decoding SETUP; virtual clock.'),
+})
+
 NOT_YET = {}
 
 
